@@ -211,8 +211,23 @@ impl<M: Math, A: MassMatrixAdaptStrategy<M>> AdaptStrategy<M> for GlobalStrategy
             if did_change & self.has_initial_mass_matrix {
                 self.has_initial_mass_matrix = false;
                 let position = math.box_array(state.point().position());
-                self.step_size
-                    .init(math, options, hamiltonian, &position, rng)?;
+                match self
+                    .step_size
+                    .init(math, options, hamiltonian, &position, rng)
+                {
+                    Ok(()) => {}
+                    // A recoverable error of the density at the start point of the
+                    // search must not end sampling: skip the search and keep adapting
+                    // the current step size.
+                    Err(NutsError::LogpFailure(err))
+                        if err
+                            .downcast_ref::<M::LogpErr>()
+                            .is_some_and(|err| crate::math::LogpError::is_recoverable(err)) =>
+                    {
+                        self.step_size.update_stepsize(rng, hamiltonian, is_last);
+                    }
+                    Err(err) => return Err(err),
+                }
                 if is_last {
                     // The search can fall back to the initial step size without
                     // resetting the adaptation. Sampling has to start with the
